@@ -102,7 +102,30 @@ def run_case(seed, workdir, n_rounds=60):
             if not moved:
                 break
 
+    seen = {'max_term': 0, 'stale_leader': None, 'leaders': set()}
+
+    def note_terms():
+        # known finding KF-C07-1/2: term and vote are not persisted - a restarted journaled voter starts again in term
+        # 0, and once every node that knew a term has been restarted (or the one that still knows it is cut off) a
+        # leader is elected in a term OLDER than one already used; a node still holding entries of the newer term then
+        # wins the next election against the committed entries of the older-term leader.  The step at which a node
+        # becomes leader in a term below the highest term any node has shown is the trigger.
+        for n_, o_ in sorted(sim.nodes.items()):
+            t_ = o_._SyncObj__raftCurrentTerm
+            if o_._SyncObj__raftState == 2 and (n_, t_) not in seen['leaders']:
+                seen['leaders'].add((n_, t_))
+                if t_ < seen['max_term'] and seen['stale_leader'] is None:
+                    seen['stale_leader'] = (n_, t_, seen['max_term'])
+        for o_ in sim.nodes.values():
+            seen['max_term'] = max(seen['max_term'], o_._SyncObj__raftCurrentTerm)
+
     def check():
+        note_terms()
+        if seen['stale_leader'] is not None:
+            if not any(p.startswith('KF-C07-1') for p in problems):
+                problems.append('KF-C07-1: node %d became leader of term %d after term %d had been used (terms are not persisted); '
+                                'the replicas are not compared from here on' % seen['stale_leader'])
+            return
         by_applied = {}
         for n, o in sim.nodes.items():
             by_applied.setdefault(o._SyncObj__raftLastApplied, []).append(n)
